@@ -28,10 +28,11 @@ type cluster struct {
 	Srv *redis.Server
 	Ex  *exserver.Server
 
-	Clients []*client
-	YieldOn map[string]bool
-	Sticky  int // out of 4: probability weight of repeating the previous actor
-	lastKey string
+	Clients    []*client
+	TLSClients []*tlsClient
+	YieldOn    map[string]bool
+	Sticky     int // out of 4: probability weight of repeating the previous actor
+	lastKey    string
 
 	lifeOps   []lifeOp
 	lifeDone  int
@@ -39,6 +40,8 @@ type cluster struct {
 	lifeAlive bool
 	seq       int // global event sequence (history timestamps)
 	execHeld  bool
+	// harnessTask names the tasks that belong to the harness (TLS client goroutines), not to the server.
+	harnessTask map[string]bool
 	// OnRecord observes the example store's record accesses (task name, point, key).
 	OnRecord func(task string, point string, key string)
 }
@@ -52,7 +55,7 @@ func addrOf(port int) string { return fmt.Sprintf(":%d", port) }
 // newCluster wires the repo's listener and yield seams to this run's simulator.
 func newCluster(tape *sim.Tape, o *Outcome) *cluster {
 	s := sim.New(tape)
-	cl := &cluster{S: s, N: sim.NewNet(s), O: o, T: tape, YieldOn: map[string]bool{}}
+	cl := &cluster{S: s, N: sim.NewNet(s), O: o, T: tape, YieldOn: map[string]bool{}, harnessTask: map[string]bool{}}
 	redis.VerifListen = cl.N.Listen
 	redis.VerifYield = func(point string, obj any) {
 		// the command mutex spans handler park points: the scheduler models it, so that no
@@ -221,6 +224,10 @@ type client struct {
 	Chunk    int
 	End      endPlan
 	NoDial   bool // dialing is driven by the check, not offered as an action
+	// S2CWindow > 0 bounds the bytes the server can have outstanding towards this client.
+	S2CWindow int
+	// NoRead: the client stops reading (with a finite window the server's writes block, then fail when it vanishes).
+	NoRead bool
 	// WaitReplies: an end planned "after the script" waits for every reply even when pipelining.
 	WaitReplies bool
 
@@ -263,6 +270,9 @@ func (c *client) dial() {
 	}
 	c.P = p
 	c.State = clOpen
+	if c.S2CWindow > 0 {
+		p.Dir(1).Window = c.S2CWindow
+	}
 	c.Cl.S.Logf(c.Name, "dialed c%d", p.ID)
 }
 
@@ -279,6 +289,12 @@ func (c *client) sentReqs() int {
 // collect reads what the server wrote and decodes complete replies.
 func (c *client) collect() {
 	if c.P == nil {
+		return
+	}
+	if c.NoRead {
+		if c.P.Ends[1].Closed() {
+			c.SrvClosed = true
+		}
 		return
 	}
 	b := c.P.Take(1)
@@ -434,6 +450,9 @@ func (cl *cluster) collectAll() {
 func (cl *cluster) actions() []sim.Action {
 	acts := cl.S.RunActions()
 	for _, c := range cl.Clients {
+		acts = append(acts, c.actions()...)
+	}
+	for _, c := range cl.TLSClients {
 		acts = append(acts, c.actions()...)
 	}
 	sort.SliceStable(acts, func(i, j int) bool { return acts[i].Key < acts[j].Key })
